@@ -6,12 +6,12 @@ from ..gen import G, WINDOW, fmt_date_layout, LAYOUTS
 from ..common import run_apps, app, out_of, sig
 from ..core import unhx
 
-THEOREMS = ['interval_exact', 'inverted_is_empty', 'filter_eq_delete', 'innermost_wins', 'keywords', 'summary_selects_day', 'summary_date_selects_day', 'day_count_advances', 'yesterday_is_previous_day']
+THEOREMS = ['interval_exact', 'inverted_is_empty', 'filter_eq_delete', 'innermost_wins', 'keywords', 'summary_selects_day', 'summary_date_selects_day', 'day_count_advances', 'yesterday_is_previous_day', 'parsed_date_is_calendar_day', 'instants_order_is_calendar_order', 'period_is_calendar_interval']
 LEVEL = 'proof'
 RULE = ('logs with days in any order and repeated dates x every (begin, end) over a 5-day window incl. absent / equal / inverted / outside x '
         '{reg, bal, csv log, print, report totals / quantity / unresolved} x flag position {global, sub-command, both with different values} x keywords '
         '(today, yesterday, last7, last30) against --today, also across daylight-saving switches of the process zone (New York, Berlin, Lord Howe) x summary DATE x TZ {UTC, America/New_York, Pacific/Kiritimati} (in-process zone and the real binary); '
-        'metamorphic oracle: output with a period = output on the file with the other days deleted; non-trivial = a bound that falls on a logged day or an unsorted / repeated log; '
+        'metamorphic oracle: output with a period = output on the file with the other days deleted; dates shown by reg / print / csv log / summary = dates of the selected days as written in the log; non-trivial = a bound that falls on a logged day or an unsorted / repeated log; '
         'distinct by (log hash, command, bounds, position, zone)')
 ASSUMPTIONS = ['naturaldate free-text dates are outside the model; the model has no zones (a heading is a UTC midnight), daylight-saving switches are exercised on the implementation by the metamorphic oracle', '--today fixes the current date (a UTC midnight)']
 
@@ -79,7 +79,7 @@ def gen(g, nlogs, tier):
                 short = set(x for x in ('g.begin', 'g.end', 's.begin', 's.end') if r.random() < 0.5)
                 a = app(path, f_all, g=gf, s=sf, kind=' '.join(path), tz=tz, short=short, today_date=datetime.date(2021, 1, 28))
                 k = app(path, f_kept, g=base_g, kind=' '.join(path) + ' (deleted)', tz=tz, today_date=datetime.date(2021, 1, 28))
-                a.meta.update({'pair': k, 'b': b, 'e': e, 'pos': pos, 'log': log})
+                a.meta.update({'pair': k, 'b': b, 'e': e, 'pos': pos, 'log': log, 'kept_days': kept, 'layout': layout})
                 cases += [a, k]
         # keywords against --today, and summary
         for kw, delta in (('today', 0), ('yesterday', 1), ('last7', 7), ('last30', 30)):
@@ -94,7 +94,7 @@ def gen(g, nlogs, tier):
                 kept = [(d, ents, ns) for d, ents, ns in log if (d >= bound if which == 'begin' else d <= bound)]
                 a = app(['csv', 'log'], {b'food.yaml': bookfile, b'log.yaml': render(g, log, layout)}, g=dict(gf, **{which: kw}), kind='csv log kw:' + kw, tz=tz, today_date=today)
                 k = app(['csv', 'log'], {b'food.yaml': bookfile, b'log.yaml': render(g, kept, layout)}, g=gf, kind='csv log (deleted)', tz=tz, today_date=today)
-                a.meta.update({'pair': k, 'b': kw, 'e': which, 'pos': 'global', 'log': log})
+                a.meta.update({'pair': k, 'b': kw, 'e': which, 'pos': 'global', 'log': log, 'kept_days': kept, 'layout': layout})
                 cases += [a, k]
         # a bound that is not a date (another numeric layout, an impossible calendar date) is an error, never "no bound"
         if layout == '2006/01/02' and n % 3 == 1:
@@ -126,7 +126,7 @@ def gen(g, nlogs, tier):
                     path = r.choice([['csv', 'log'], ['print'], ['reg']])
                     a = app(path, {b'food.yaml': bookfile, b'log.yaml': render(g, dlog, layout)}, g=dict(gf, **{which: kw}), kind=' '.join(path) + ' dst kw:' + kw, tz=tz, today_date=today)
                     k = app(path, {b'food.yaml': bookfile, b'log.yaml': render(g, kept, layout)}, g=gf, kind=' '.join(path) + ' dst (deleted)', tz=tz, today_date=today)
-                    a.meta.update({'pair': k, 'b': kw, 'e': which, 'pos': 'global', 'log': dlog})
+                    a.meta.update({'pair': k, 'b': kw, 'e': which, 'pos': 'global', 'log': dlog, 'kept_days': kept, 'layout': layout})
                     cases += [a, k]
         for d in DAYS[1:4]:
             for arg, today in ((fmt(d), datetime.date(2021, 1, 28)), ('today', d), ('yesterday', d + datetime.timedelta(days=1))):
@@ -139,9 +139,28 @@ def gen(g, nlogs, tier):
                 a = app(['summary'], {b'food.yaml': bookfile, b'log.yaml': render(g, log, layout)}, args=(arg,), g=gf, kind='summary', tz=tz, today_date=today)
                 # summary of the file that holds only that day, asked for the same day
                 k = app(['summary'], {b'food.yaml': bookfile, b'log.yaml': render(g, kept, layout)}, args=(arg,), g=gf, kind='summary (deleted)', tz=tz, today_date=today)
-                a.meta.update({'pair': k, 'b': arg, 'e': 'summary', 'pos': 'arg', 'log': log, 'summary_day': d, 'kept': kept, 'layout': layout})
+                a.meta.update({'pair': k, 'b': arg, 'e': 'summary', 'pos': 'arg', 'log': log, 'summary_day': d, 'kept': kept, 'kept_days': kept, 'layout': layout})
                 cases += [a, k]
     return cases
+
+
+def printed_dates(c, out):
+    """(dates the report shows, dates it must show) for the commands that print one heading or one row per selected day"""
+    kind = c.meta['kind'].split(' dst')[0].split(' kw:')[0]
+    kept, layout = c.meta['kept_days'], c.meta['layout']
+    text = out.decode('latin-1')
+    if kind == 'csv log':
+        import csv, io
+        want = [fmt_date_layout(d, '2006-01-02') for d, ents, ns in kept for _ in spec.merge_day(ents)]
+        got = [row[0] for row in csv.reader(io.StringIO(text)) if row]
+        return got, want
+    if kind == 'print':
+        return [l for l in text.split('\n') if l and l[0] not in ' \t#'], [fmt_date_layout(d, layout) + ':' for d, ents, ns in kept]
+    if kind == 'reg':
+        return [l for l in text.split('\n') if l and l[0] not in ' \t-'], [fmt_date_layout(d, layout) for d, ents, ns in kept]
+    if kind == 'summary':
+        return [l for l in text.split('\n') if l.endswith(' :') and l[0] not in ' \t'], [fmt_date_layout(d, layout) + ' :' for d, ents, ns in kept]
+    return None, None
 
 
 def judge(ctx, cases, impl):
@@ -158,6 +177,11 @@ def judge(ctx, cases, impl):
                 c.meta['kind'], c.meta['b'], c.meta['e'], c.meta['pos'], c.tz), c,
                 {'with_period': out_of(i).decode('utf-8', 'replace')[:1200] + ' [%s %s]' % (i.get('status'), unhx(i.get('text', '') or '').decode('utf-8', 'replace')),
                  'days_deleted': out_of(j).decode('utf-8', 'replace')[:1200] + ' [%s]' % j.get('status')}, signature='period-selection')
+        if i.get('status') == 'ok' and 'kept_days' in c.meta:
+            got, want = printed_dates(c, out_of(i))
+            if got is not None and got != want:
+                ctx.problem('oracle', '`%s` under TZ=%s does not show the dates of the selected days as they are written in the log' % (c.meta['kind'], c.tz), c,
+                            {'dates_shown': repr(got)[:600], 'dates_of_selected_days': repr(want)[:600], 'out': out_of(i).decode('utf-8', 'replace')[:600]}, signature='printed-dates')
         if c.meta['kind'] == 'summary' and i.get('status') == 'ok':
             # exactly that calendar day: one block per heading of that date
             n_blocks = out_of(i).count(b'------------\n')
